@@ -27,6 +27,9 @@ def main():
         rc0, out0 = sh(demo_cmd, wt)
         rc, out = sh("git apply " + os.path.abspath(os.path.join(src, "patch.diff")), wt)
         if rc != 0:
+            # the tree has moved on by hook-only lines since the patch was written: allow reduced context
+            rc, out = sh("git apply -C1 " + os.path.abspath(os.path.join(src, "patch.diff")), wt)
+        if rc != 0:
             print("PATCH DOES NOT APPLY", out); return 1
         os.remove(os.path.join(wt, demo_path))
         rc1, out1 = sh("cargo test --workspace --no-fail-fast --offline 2>&1 | grep -E '^test result' ", wt)
